@@ -381,6 +381,130 @@ func c04ApplyActs(p *Pkg) string {
 	return "[" + strings.Join(acts, "; ") + "]"
 }
 
+// c04SyncFields parses tan's `func stateSyncChange(a, b pb.State) bool { return a.X != b.X || ... }`
+func c04SyncFields(p *Pkg) []string {
+	fn := p.Func("", "stateSyncChange")
+	if len(fn.Body.List) != 1 {
+		panic("stateSyncChange: body is not a single return")
+	}
+	ret, ok := fn.Body.List[0].(*ast.ReturnStmt)
+	if !ok || len(ret.Results) != 1 {
+		panic("stateSyncChange: body is not a single return")
+	}
+	var fields []string
+	var walk func(e ast.Expr)
+	walk = func(e ast.Expr) {
+		switch x := e.(type) {
+		case *ast.ParenExpr:
+			walk(x.X)
+		case *ast.BinaryExpr:
+			if x.Op == token.LOR {
+				walk(x.X)
+				walk(x.Y)
+				return
+			}
+			l, lok := x.X.(*ast.SelectorExpr)
+			r, rok := x.Y.(*ast.SelectorExpr)
+			if x.Op == token.NEQ && lok && rok && l.Sel.Name == r.Sel.Name &&
+				c04ExprString(l.X) != c04ExprString(r.X) {
+				switch l.Sel.Name {
+				case "Term", "Vote", "Commit":
+					fields = append(fields, "Sf"+l.Sel.Name)
+					return
+				}
+			}
+			panic("stateSyncChange: unexpected comparison")
+		default:
+			panic("stateSyncChange: unexpected expression")
+		}
+	}
+	walk(ret.Results[0])
+	return fields
+}
+
+// c04TanSyncDisjuncts parses, in tan's db.write, `sync := A || B || C` and names the disjuncts
+func c04TanSyncDisjuncts(p *Pkg) map[string]bool {
+	fn := p.Func("db", "write")
+	out := map[string]bool{}
+	found := false
+	ast.Inspect(fn.Body, func(n ast.Node) bool {
+		as, ok := n.(*ast.AssignStmt)
+		if !ok || len(as.Lhs) != 1 || len(as.Rhs) != 1 || c04ExprString(as.Lhs[0]) != "sync" {
+			return true
+		}
+		found = true
+		var walk func(e ast.Expr)
+		walk = func(e ast.Expr) {
+			switch x := e.(type) {
+			case *ast.ParenExpr:
+				walk(x.X)
+				return
+			case *ast.BinaryExpr:
+				if x.Op == token.LOR {
+					walk(x.X)
+					walk(x.Y)
+					return
+				}
+				if x.Op == token.GTR && c04ExprString(x.X) == "len(...)" && c04ExprString(x.Y) == "0" {
+					if c, ok := x.X.(*ast.CallExpr); ok && len(c.Args) == 1 && strings.HasSuffix(c04ExprString(c.Args[0]), ".EntriesToSave") {
+						out["entries"] = true
+						return
+					}
+				}
+			case *ast.UnaryExpr:
+				if x.Op == token.NOT {
+					if name, c := c04CallName(x.X); c != nil && name == "IsEmptySnapshot" {
+						out["snapshot"] = true
+						return
+					}
+				}
+			case *ast.CallExpr:
+				if name, _ := c04CallName(x); name == "stateSyncChange" && len(x.Args) == 2 &&
+					strings.HasSuffix(c04ExprString(x.Args[0]), ".State") {
+					out["state"] = true
+					return
+				}
+			}
+			panic("tan db.write: unknown disjunct in the sync condition")
+		}
+		walk(as.Rhs[0])
+		return false
+	})
+	if !found {
+		panic("tan db.write: `sync := ...` not found")
+	}
+	return out
+}
+
+// every pebble.WriteOptions literal of the Pebble KV store and its Sync field
+func c04PebbleSync(p *Pkg) bool {
+	n := 0
+	all := true
+	for _, f := range p.Files {
+		ast.Inspect(f, func(nd ast.Node) bool {
+			cl, ok := nd.(*ast.CompositeLit)
+			if !ok || !strings.HasSuffix(c04ExprString(cl.Type), "WriteOptions") {
+				return true
+			}
+			n++
+			sync := false
+			for _, el := range cl.Elts {
+				if kv, ok := el.(*ast.KeyValueExpr); ok && c04ExprString(kv.Key) == "Sync" && c04ExprString(kv.Value) == "true" {
+					sync = true
+				}
+			}
+			if !sync {
+				all = false
+			}
+			return true
+		})
+	}
+	if n == 0 {
+		panic("kv_pebble: no pebble.WriteOptions literal found")
+	}
+	return all
+}
+
 func init() {
 	register(&Unit{Name: "C04", Imports: "From Coq Require Import Bool.", Facts: []Fact{
 		{Name: "stage vocabulary", Gen: func() string {
@@ -414,6 +538,23 @@ func init() {
 				return true
 			})
 			return defBool("snapshot_saved_removes_flag", ok)
+		}},
+		{Name: "state fields vocabulary", Gen: func() string {
+			return "Inductive sfield := SfTerm | SfVote | SfCommit.\n"
+		}},
+		// internal/tan/db.go: which State fields, when they differ from the last written
+		// State, make db.write ask for an fsync
+		{Name: "tan stateSyncChange fields", Gen: func() string {
+			return "Definition tan_sync_fields : list sfield := [" + strings.Join(c04SyncFields(loadPkg("internal/tan")), "; ") + "].\n"
+		}},
+		{Name: "tan db.write sync condition", Gen: func() string {
+			d := c04TanSyncDisjuncts(loadPkg("internal/tan"))
+			return defBool("tan_sync_on_snapshot", d["snapshot"]) + defBool("tan_sync_on_entries", d["entries"]) +
+				defBool("tan_sync_on_state_change", d["state"])
+		}},
+		// internal/logdb/kv/pebble: every write batch is committed with Sync: true
+		{Name: "pebble write options", Gen: func() string {
+			return defBool("pebble_write_sync", c04PebbleSync(loadPkg("internal/logdb/kv/pebble")))
 		}},
 	}})
 }
